@@ -787,6 +787,7 @@ def Expr.nfInv : Expr → Prop
   | .sel .. => False
   | .selOr .. => False
   | .lam .. => False
+  | .un .. => False
 def allNfInv : List Expr → Prop
   | [] => True
   | e :: rest => e.nfInv ∧ allNfInv rest
@@ -810,6 +811,7 @@ def Expr.inlineClean : Expr → Prop
   | .sel .. => False
   | .selOr .. => False
   | .lam .. => False
+  | .un .. => False
 def allInlineClean : List Expr → Prop
   | [] => True
   | e :: rest => e.inlineClean ∧ allInlineClean rest
@@ -1262,6 +1264,7 @@ theorem rebuildAP_summ : (e : Expr) → e.ok → e.mlSafe → e.nfInv → e.inli
   | .sel .., _, _, hinv, _, _, _, _ => hinv.elim
   | .selOr .., _, _, hinv, _, _, _, _ => hinv.elim
   | .lam .., _, _, hinv, _, _, _, _ => hinv.elim
+  | .un .., _, _, hinv, _, _, _, _ => hinv.elim
 theorem joinNl_summ : (es : List Expr) → allOk es → allMlSafe es → allNfInv es → allInlineClean es → nonLastClosed es → es ≠ [] → ∀ (i : Nat),
     ∃ l f t, summ (joinP [.ws ['\n']] (rebuildAllP es i false)) = .lexy l f true t ∧ f ≠ semi ∧ VLead l ∧ TrailT t
   | [], _, _, _, _, _, h, _ => absurd rfl h
@@ -1304,6 +1307,7 @@ theorem previewP_summ : (e : Expr) → e.ok → e.mlSafe → e.nfInv → e.inlin
   | .sel .., _, _, _, _, i, p, h => by simp [Expr.previewP] at h
   | .selOr .., _, _, _, _, i, p, h => by simp [Expr.previewP] at h
   | .lam .., _, _, _, _, i, p, h => by simp [Expr.previewP] at h
+  | .un .., _, _, _, _, i, p, h => by simp [Expr.previewP] at h
   | .list value ml inner before after, hok, hml, hinv, hclean, i, p, h => by
     have hvm := hml.1
     obtain ⟨hv, hin, hb, ha⟩ := hok
